@@ -87,6 +87,17 @@ def shard(ctx):
         doc = corpus[t] if t < len(corpus) else gen.gen_doc(rng, scalars=SCALARS)
         if t < len(corpus):
             ctx.res.counts["structure_corpus_documents"] += 1
+        elif isinstance(doc, dict) and rng.random() < 0.35:
+            # doubles with random bit patterns (17 significant digits, extreme exponents): every loader must read the same double
+            import struct
+            fl = []
+            while len(fl) < 3:
+                f = struct.unpack("<d", struct.pack("<Q", rng.getrandbits(64)))[0]
+                if math.isfinite(f) and f != 0:
+                    fl.append(f)
+            doc = dict(doc)
+            doc["n"] = fl
+            ctx.res.counts["documents_with_random_doubles"] += 1
         if not keys_safe(doc):
             continue
         model = json.loads(json.dumps(doc))     # normalise (tuples etc.)
